@@ -1,4 +1,5 @@
 use crate::Comp;
+pub mod beans;
 pub mod co;
 pub mod local;
 pub mod nio;
@@ -19,5 +20,6 @@ pub static ALL: &[Comp] = &[
     Comp { name: "rtwait", gen: rtwait::gen, exec: rtwait::exec, isolate_ms: 10000 },
     Comp { name: "co", gen: co::gen, exec: co::exec, isolate_ms: 5000 },
     Comp { name: "local", gen: local::gen, exec: local::exec, isolate_ms: 5000 },
+    Comp { name: "beans", gen: beans::gen, exec: beans::exec, isolate_ms: 10000 },
     Comp { name: "pq", gen: queue::gen_pq, exec: queue::exec_pq, isolate_ms: 500 },
 ];
